@@ -83,6 +83,10 @@ func (m *Machine) ethCalldata(x *EthAct) (*common.Address, []byte, error) {
 		switch x.Inner {
 		case "depositLST", "withdrawLST":
 			return c.AssetsABI().Pack(x.Inner, lz, pad32b(a.AddrBytes()), staker, amount)
+		case "registerToken":
+			tok := make([]byte, 32)
+			copy(tok, []byte{0xbb, byte(x.Word), byte(x.Word >> 8), 0x02})
+			return c.AssetsABI().Pack("registerToken", lz, tok, uint8(6), fmt.Sprintf("etok-%d", x.Word), "through a forwarder", fmt.Sprintf("ETK%d,Ethereum,8", x.Word))
 		case "delegate", "undelegate":
 			n := x.LzNonce
 			if n == 0 {
